@@ -34,6 +34,22 @@ def _walk_own(fn):
         stack.append(c)
 
 
+class NpVec(list):
+  """A one-dimensional numeric array built with np.array(<list of numbers>):
+  a list with elementwise arithmetic and array-valued slices."""
+
+  def __getitem__(self, k):
+    r = list.__getitem__(self, k)
+    return NpVec(r) if isinstance(k, slice) else r
+
+  def elementwise(self, f, other, swap=False):
+    if isinstance(other, list):
+      if len(other) != len(self):
+        raise ValueError('shape mismatch')
+      return NpVec([f(b, a) if swap else f(a, b) for a, b in zip(self, other)])
+    return NpVec([f(other, a) if swap else f(a, other) for a in self])
+
+
 class Opaque:
   """A value the interpreter knows nothing about."""
 
@@ -275,7 +291,7 @@ class Interp:
     elif isinstance(st, ast.AugAssign):
       cur = ev(_as_load(st.target))
       rhs = ev(st.value)
-      if isinstance(cur, list) and isinstance(st.op, ast.Add) and isinstance(rhs, (list, tuple)):
+      if isinstance(cur, list) and not isinstance(cur, NpVec) and isinstance(st.op, ast.Add) and isinstance(rhs, (list, tuple)):
         cur.extend(rhs)  # in-place, like list.__iadd__
         new = cur
       else:
@@ -461,6 +477,10 @@ class Interp:
     if f is None:
       return Opaque('binop')
     try:
+      if isinstance(a, NpVec) and isinstance(b, (int, float, list)) and not isinstance(b, bool):
+        return a.elementwise(f, b)
+      if isinstance(b, NpVec) and isinstance(a, (int, float)) and not isinstance(a, bool):
+        return b.elementwise(f, a, swap=True)
       return f(a, b)
     except ZeroDivisionError:
       raise _Raise('ZeroDivisionError')
@@ -792,7 +812,9 @@ class Interp:
     if fname.startswith('logging.'):
       return None
     if fname in ('np.array', 'np.asarray', 'numpy.array', 'numpy.asarray') and args and not kwargs:
-      return args[0]  # transparent for folded scalars / lists
+      if isinstance(args[0], list) and args[0] and all(isinstance(x, (int, float)) and not isinstance(x, bool) for x in args[0]):
+        return NpVec(args[0])  # a fresh numeric vector (np.array copies)
+      return args[0]  # transparent for folded scalars / other lists
     if fname == 'itertools.groupby' and args and not isinstance(args[0], Opaque):
       keyf = kwargs.get('key') if 'key' in kwargs else (args[1] if len(args) > 1 else None)
       out = []
@@ -1087,6 +1109,8 @@ class Interp:
           return getattr(base, attr)(*args, **kwargs)
       if isinstance(base, tuple) and attr in ('index', 'count'):
         return getattr(base, attr)(*args)
+      if isinstance(base, NpVec) and attr == 'tolist' and not args:
+        return list(base)
       if isinstance(base, bytes) and attr in ('decode', 'startswith', 'endswith'):
         return getattr(base, attr)(*args, **kwargs)
     except _Raise:
